@@ -44,6 +44,8 @@ type FuncContract struct {
 	NoInlineCheck bool
 	ClausePropsReq map[int][]string
 	WaitInv []string
+	ObjInv []string // object invariant: assumed at entry / proved at exit of the body; hidden from callers in other packages
+	AtCall map[string][]string // callee short name -> assertions checked immediately before each such call
 	NoFrame bool
 	Like string // abstract contract of a func-typed field: parameter names/types taken from this function
 	LocksChange bool
@@ -137,7 +139,7 @@ func pkgPathOf(root, file string) string {
 var clauseKeywords = map[string]bool{
 	"props": true, "requires": true, "ensures": true, "modifies": true, "loop": true, "arith": true,
 	"nosafety": true, "role": true, "entry": true, "trusted": true, "witness": true, "lemma": true,
-	"exitlocks": true, "replay": true, "waitinv": true, "lockschange": true, "like": true, "noframe": true,
+	"exitlocks": true, "replay": true, "waitinv": true, "lockschange": true, "like": true, "noframe": true, "atcall": true, "invariant": true,
 }
 
 func (cs *Contracts) parseFile(root, file string) error {
@@ -300,6 +302,21 @@ func (cs *Contracts) parseFile(root, file string) error {
 			cur.Like = rest
 		case "noframe":
 			cur.NoFrame = true
+		case "invariant":
+			cur.ObjInv = append(cur.ObjInv, rest)
+			lastClause = &cur.ObjInv[len(cur.ObjInv)-1]
+		case "atcall":
+			// atcall <callee> <expr>
+			f := strings.SplitN(rest, " ", 2)
+			if len(f) != 2 {
+				return fmt.Errorf("%s:%d: bad atcall clause", file, ln+1)
+			}
+			if cur.AtCall == nil {
+				cur.AtCall = map[string][]string{}
+			}
+			cur.AtCall[f[0]] = append(cur.AtCall[f[0]], strings.TrimSpace(f[1]))
+			lst := cur.AtCall[f[0]]
+			lastClause = &lst[len(lst)-1]
 		}
 	}
 	return nil
